@@ -53,7 +53,9 @@ def run(R):
     all_accepted = list(accepted)
     accepted = picked
     # the programs whose SDK depends on an extra crate go through the histories too
-    deps_first = [o for o in accepted if o["klass"] == "deps"][:1]
+    # ... the one that uses both crates whose library is called `helper` first (its history ends with a cold documentation
+    # cache over a warm target directory: the workspace member's docs must not be taken for the cached crate's)
+    deps_first = sorted([o for o in accepted if o["klass"] == "deps"], key=lambda o: not (o.get("spec") or {}).get("two_helpers"))[:1]
     accepted = deps_first + [o for o in accepted if o not in deps_first]
     n_foreign = 0
     k = 4 if R.tier == "quick" else 30
